@@ -136,7 +136,8 @@ Fixpoint inj (v : value) : ostate :=
   | VArr es => OArr (map inj es) []
   end.
 
-(** * ReadTL1 into an existing object.  [None] = out of fuel *)
+(** * ReadTL1 into an existing object.  [None] = out of fuel.  [rfuel] bounds the depth to which the Reset of an
+    absent field is followed (Go: as deep as the object is allocated) *)
 Definition ires := option (res (ostate * bytes)).
 
 Section Into.
@@ -199,7 +200,7 @@ Definition dinto_elems (rec : ostate -> bytes -> ires) (n : N) (olds : list osta
       end
   end.
 
-Fixpoint dinto (fuel : nat) (san : bool) (s : schema) (t : nat) (bare : bool) (ps : list N) (o : ostate) (b : bytes) : ires :=
+Fixpoint dinto (fuel rfuel : nat) (san : bool) (s : schema) (t : nat) (bare : bool) (ps : list N) (o : ostate) (b : bytes) : ires :=
   match fuel with
   | O => None
   | S fuel' =>
@@ -214,7 +215,7 @@ Fixpoint dinto (fuel : nat) (san : bool) (s : schema) (t : nat) (bare : bool) (p
       | Some (TStruct tag fds) =>
           let olds := match o with OStruct fs => fs | _ => [] end in
           let go b' :=
-            match dinto_fields (dinto fuel' san s) (oreset fuel' s) ps fds olds [] b' with
+            match dinto_fields (dinto fuel' rfuel san s) (oreset rfuel s) ps fds olds [] b' with
             | None => None
             | Some (Ok (fs, r)) => Some (Ok (OStruct fs, r))
             | Some Eof => Some Eof
@@ -234,7 +235,7 @@ Fixpoint dinto (fuel : nat) (san : bool) (s : schema) (t : nat) (bare : bool) (p
               match find_variant s vars tg O with
               | Some (idx, fds) =>                         (* item.index = idx; item.value<idx>.ReadTL1(w) *)
                   let olds := match nth idx vs OFresh with OStruct fs => fs | _ => [] end in
-                  match dinto_fields (dinto fuel' san s) (oreset fuel' s) ps fds olds [] b' with
+                  match dinto_fields (dinto fuel' rfuel san s) (oreset rfuel s) ps fds olds [] b' with
                   | None => None
                   | Some (Ok (fs, r)) => Some (Ok (OUnion idx (set_nth idx (OStruct fs) vs), r))
                   | Some Eof => Some Eof
@@ -254,7 +255,7 @@ Fixpoint dinto (fuel : nat) (san : bool) (s : schema) (t : nat) (bare : bool) (p
                         | ATupleFixed _ => olds0                                    (* [c]T: in place *)
                         | _ => if lenN olds0 <? n then [] else olds0                (* cap < n: make; else vec[:n] *)
                         end in
-            match dinto_elems (dinto fuel' san s (f_ty ef) (f_bare ef) eargs) n olds b' with
+            match dinto_elems (dinto fuel' rfuel san s (f_ty ef) (f_bare ef) eargs) n olds b' with
             | None => None
             | Some (Ok (es, rest, r)) => Some (Ok (OArr es rest, r))
             | Some Eof => Some Eof
